@@ -1232,6 +1232,9 @@ class FnTranslator:
                 if len(args) == 1 and self.T(args[0])[0] == 'string':
                     self.rule('std::string copy construction -> copy of the handle')
                     return [('assign', lv, self.expr(args[0]))]
+        if t[0] == 'opaque' and e['kind'] in ('CXXConstructExpr', 'CXXTemporaryObjectExpr') and not [a for a in self.inner(e) if self.strip(a)['kind'] != 'CXXDefaultArgExpr']:
+            self.rule('default construction of a member of a type outside the extractor (%s): no state of it is modelled' % t[1][:50])
+            return []
         self.err(e, 'cannot construct %r' % (t,))
 
     def ctor_name(self, t, e):
